@@ -149,3 +149,8 @@ func drawGC(s Src, c sim.Config) sim.Config {
 func lines(ls ...string) string { return strings.Join(ls, "\n") + "\n" }
 
 func bstr(s string) string { return "\"" + s + "\"" }
+
+// drawTTY: which standard streams look like terminals (0 = none, the common case in tests).
+func drawTTY(s Src) int {
+	return Pick(s, "tty", []int{0, 0, 0, 7, 4, 6, 1})
+}
